@@ -269,6 +269,8 @@ def run_property(plan: Plan, tier: str, seed: int, contracts_mod_names, replay=N
             fi["renamed_locals_mapped_back"] = [f"{a} -> {b}" for a, b in eng.fs.renamed_locals]
             print(f"note: {qn}: locals renamed in the source ({', '.join(fi['renamed_locals_mapped_back'])}); "
                   f"the function is otherwise identical to the recorded one, names mapped back")
+        if getattr(eng.fs, "restructured", False):
+            fi["statement_structure_changed"] = True
         fn_info.append(fi)
     if plan.lemmas:
         try:
@@ -314,6 +316,26 @@ def run_property(plan: Plan, tier: str, seed: int, contracts_mod_names, replay=N
     everything = all_obls + extra_results
     mine = [o for o in everything if pid in o.props or o.kind in ("cover", "must_fail")]
     proved = [o for o in mine if o.result == "proved"]
+    # Contracts attach to statements by position (if#k, loop ordinals, "after <statement> #k").  If the statement skeleton
+    # of a function differs from the recorded one (contracts/_shapes.json), those positions cannot be trusted: a solver
+    # refutation without a replayed input is then "undecided" (exit 2), never a violation - whether the change is a
+    # harmless restructuring or a defect is left to the bounded stand-ins and to the clauses evaluated on real runs.
+    restructured = {qn for qn, eng in engines.items() if getattr(eng.fs, "restructured", False)}
+    for qn, _why in undecided_fns:
+        try:
+            from pyvc import extract as _ex
+            if _ex.get_function(qn.partition("#")[0]).restructured:
+                restructured.add(qn)
+        except Exception:       # noqa: BLE001
+            pass
+    for o in mine:
+        if o.result == "refuted" and o.fn in restructured and not getattr(o, "witness", None):
+            o.result = "undecided"
+            o.reason = ("statement structure of the function changed; the contract attaches by position - not trusted. "
+                        + (o.reason or ""))
+    for qn in sorted(restructured):
+        print(f"note: {qn}: the statement structure differs from the one the contract was written against; solver "
+              f"refutations for it are reported as undecided")
     refuted = [o for o in mine if o.result == "refuted"]
     undec = [o for o in mine if o.result == "undecided"]
     errors = [o for o in everything if o.result == "error"]
@@ -358,6 +380,11 @@ def run_property(plan: Plan, tier: str, seed: int, contracts_mod_names, replay=N
                   "seconds": (60 if has_bad else 8) * (4 if tier == "thorough" else 1)}
         n, v, inp, mism = concrete_search(qn, c, pid, random.Random(rng.random()), budget)
         conc_runs += n
+        if v is not None and qn in restructured and v.kind in ("assert", "branch-iff", "inv-init", "inv-pres", "iter", "exit",
+                                                               "variant", "init", "frame"):
+            out_lines.append(f"note: {v.fn}/{v.kind}/{v.label} fails on a concrete run, but the function was restructured "
+                             f"and this clause attaches by position: not reported")
+            v = None
         if v is not None:
             name = f"{v.fn}/{v.kind}/{v.label}"
             vprops = getattr(v, "props", None)
